@@ -23,3 +23,21 @@ for d in sorted(glob.glob(os.path.join(V, "seeded", "*"))):
         json.dump({"from": sid, "what": str(r.get("what"))[:300], "units": us}, open(out, "w"), indent=1)
         n += 1
 print("corpus files:", n)
+
+# validation: every corpus file must pass on the unchanged tree (a file that fails there is stale - produced by an older
+# version of the harness - or holds a badly shrunk input); such files are dropped and listed in corpus/REJECTED.txt
+import subprocess, sys
+if "--no-validate" not in sys.argv:
+    rej = []
+    files = sorted(glob.glob(os.path.join(V, "corpus", "C*", "seed_*.json")))
+    for f in files:
+        pid = os.path.basename(os.path.dirname(f))
+        r = subprocess.run([os.path.join(V, "check"), pid, "--replay", f, "--no-coq"], capture_output=True, text=True,
+                           env=dict(os.environ, PRTPY_REPO="/repo", VERIF_REPLAY_DIR=os.path.join(V, "work", "replay_corpus_validation")))
+        if r.returncode != 0:
+            why = [l for l in r.stdout.split("\n") if l.startswith("# ")][:1]
+            rej.append(f"{os.path.relpath(f, V)}: {why[0][:200] if why else 'rc ' + str(r.returncode)}")
+            os.remove(f)
+    with open(os.path.join(V, "corpus", "REJECTED.txt"), "w") as fh:
+        fh.write("corpus files dropped because they fail on the unchanged tree (stale replay of an older harness, or a badly shrunk input):\n" + "\n".join(rej) + "\n")
+    print("validated", len(files), "rejected", len(rej))
